@@ -182,6 +182,7 @@ func checkC04(c *Ctx) {
 	// file still renders exactly its own decorations (what a restore returns may not change afterwards)
 	c04Reuse(c, src, r0)
 	c04Imports(c)
+	c04Extras(c, src)
 	// listing helper + accessor, once per node type that occurs
 	pts := &ndjson{}
 	seenType := map[string]bool{}
@@ -561,5 +562,50 @@ func c04Imports(c *Ctx) {
 				}
 			}
 		}
+	}
+}
+
+// c04Extras: declarations replaced by their clones (identifiers elsewhere still point at the old ones
+// through Obj.Decl), printed by a restorer that also restores objects and scopes: every decoration of the
+// tree is rendered exactly once -- none of the replaced declarations' comments comes back.
+func c04Extras(c *Ctx, src []byte) {
+	c04ExtrasOn(c, "template", src)
+	// declarations that refer to each other (functions, variables, types, constants, labels)
+	c04ExtrasOn(c, "cross-references", []byte("package p\n\n// helper doc\nfunc helper(a int /* arg */) int {\n\t// body\n\treturn a + limit // ret\n}\n\n// limit doc\nconst limit = 10 // limit trail\n\n// T doc\ntype T struct {\n\tnext *T // next\n}\n\n// v doc\nvar v = helper(1) /* v trail */\n\nfunc main() {\n\t/* call */ helper(v)\n\tvar t T // local\n\t_ = t.next\n}\n"))
+}
+
+func c04ExtrasOn(c *Ctx, name string, src []byte) {
+	f, err := decorator.Parse(src)
+	if err != nil {
+		c.Infra(err.Error())
+		return
+	}
+	n := 0
+	for i, d := range f.Decls {
+		if _, ok := d.(*dst.FuncDecl); ok || i%3 == 0 || name != "template" {
+			if gd, isGen := d.(*dst.GenDecl); isGen && gd.Tok == token.IMPORT {
+				continue
+			}
+			cl := dst.Clone(d).(dst.Decl)
+			cl.Decorations().Start.Prepend(fmt.Sprintf("// X%d", n))
+			f.Decls[i] = cl
+			n++
+		}
+	}
+	c.Eval("extras|"+name+" with declarations replaced by clones", true)
+	plain, msg := printFile(dst.Clone(f).(*dst.File))
+	if msg != "" {
+		c.Infra("c04Extras: " + msg)
+		return
+	}
+	var buf bytes.Buffer
+	var perr error
+	m2 := guard(func() {
+		r := decorator.NewRestorer()
+		r.Extras = true
+		perr = r.Fprint(&buf, f)
+	})
+	if m2 != "" || perr != nil || buf.String() != plain {
+		c.Fail(Finding{Sig: "render-with-extras-differs", Input: "extras|" + name, What: fmt.Sprintf("%s with %d declarations replaced by clones prints differently with Restorer.Extras (%s %v): %s", name, n, m2, perr, diffAt([]byte(plain), buf.Bytes())), Replay: obj{"kind": "none"}})
 	}
 }
